@@ -30,10 +30,20 @@ def mk_value(t, v, annot=None, mode='readable'):
     return mk_type(t, annot).from_micheline_value(P.render(v, t, mode))
 
 
+_template = {}
+
+
 def new_interpreter():
+    """A fresh REPL interpreter. Interpreter.__init__ builds a yacc parser (4 ms); it is run once, later instances are
+    shallow copies of that template reset by the real Interpreter.reset() (fresh stack and context, shared parser)."""
+    import copy
     from pytezos.michelson.repl import Interpreter
     patch_parser_passthrough()
-    return Interpreter()
+    if 't' not in _template:
+        _template['t'] = Interpreter()
+    it = copy.copy(_template['t'])
+    it.reset()
+    return it
 
 
 def push(t, v, annot=None):
